@@ -7,6 +7,12 @@ from hdl21.instance import Instance, InstanceArray, InstanceBundle
 from hdl21.bundle import BundleInstance, Bundle
 from hdl21.role import Role
 
+# The reserved names of the specification (C18): the Module's / Bundle's own public attributes and methods. Stated here,
+# not read from the code under verification - a list that shrinks there must fail the contracts, not follow them.
+RESERVED_MODULE = ("ports", "signals", "instances", "instarrays", "instbundles", "bundles", "literals", "props",
+                   "namespace", "add", "get")
+RESERVED_BUNDLE = ("signals", "bundles", "namespace")
+
 MODULE_ATTRS = (Signal, Instance, InstanceArray, InstanceBundle, BundleInstance)
 BUNDLE_ATTRS = (Signal, BundleInstance)
 NON_ATTRS = (Module, Concat, PortRef)
@@ -186,7 +192,7 @@ class ModuleSetattr(AddBase):
     returns = "none"
 
     def scenarios(self, eng):
-        from hdl21.module import _banned
+        _banned = RESERVED_MODULE
         def good(eng, st):
             m, val = self.mk(eng, st, MODULE_ATTRS)
             key = SStr(z3.String("key"))
@@ -210,7 +216,7 @@ class ModuleSetattr(AddBase):
 
     @staticmethod
     def _banned(a):
-        from hdl21.module import _banned
+        _banned = RESERVED_MODULE
         return z3.Or([zstr(a.key) == z3.StringVal(b) for b in _banned])
 
     def _is_attr(self, eng, st0, a):
@@ -276,7 +282,7 @@ class ModuleAddMethod(AddBase):
     def _reserved(self, st0, a):
         """the name the object would go under is one of the module's own attributes (C18: reserved names are rejected
         by add() as they are by assignment)"""
-        from hdl21.module import _banned
+        _banned = RESERVED_MODULE
         name = st0.heap.get("name", a.val.z) if a.name is None else zstr(a.name)
         return z3.And(z3.Not(self._badnames(st0, a)), z3.Or([name == z3.StringVal(b) for b in _banned]))
 
@@ -477,7 +483,7 @@ class BundleAddMethod(AddBase):
         return st0.heap.get("_elaborated", a.self.z)
 
     def _reserved(self, st0, a):
-        from hdl21.bundle import _banned
+        _banned = RESERVED_BUNDLE
         name = st0.heap.get("name", a.val.z) if a.name is None else zstr(a.name)
         return z3.And(z3.Not(self._badnames(st0, a)), z3.Or([name == z3.StringVal(b) for b in _banned]))
 
@@ -644,8 +650,7 @@ def decorator_loop_obligations():
             finally:
                 eng.frames.pop()
             info["scenarios"] += 1
-            from hdl21.module import _banned as mb
-            from hdl21.bundle import _banned as bb
+            mb, bb = RESERVED_MODULE, RESERVED_BUNDLE
             banned = z3.Or([k.z == z3.StringVal(b) for b in (bb if owner_classes == (Bundle,) else mb)])
             for pi, (kind, s2, v) in enumerate(outs):
                 info["paths"] += 1
